@@ -13,6 +13,16 @@
 (*   out -> held (at D) -> retFul | retFail -> dlvFul | dlvFail -> done     *)
 (* where dlv* = handed to A but not yet irrevocably committed (a            *)
 (* reconnection or a restart makes the peer hand it over again).           *)
+(*                                                                         *)
+(* Stale = TRUE adds the restart from a manager snapshot the monitors have  *)
+(* overtaken (ChannelManager::read: the channels whose monitors are ahead   *)
+(* are closed, the HTLCs found in their monitors are re-added to the        *)
+(* payment -- insert_from_monitor_on_startup --, the HTLCs the snapshot     *)
+(* holds but the monitors no longer do are failed) and what follows on      *)
+(* chain: the commitment confirms, B_k claims the HTLC output with the      *)
+(* preimage or the HTLC times out.  MaxRetry > 0 makes a single-part send   *)
+(* a payment with automatic retries (Retry::Attempts): a failed attempt is  *)
+(* followed by a new HTLC over the next unused branch.                      *)
 (***************************************************************************)
 EXTENDS PaySend, Json
 
@@ -22,15 +32,23 @@ CONSTANTS NP,          \* payment ids 1..NP (id p pays hash p)
           MaxDup,      \* duplicate deliveries
           MaxRestart,
           Idem,        \* IDEMPOTENCY_TIMEOUT_TICKS of the model
-          MaxOps       \* bound on the script length
+          MaxOps,      \* bound on the script length
+          MaxRetry,    \* automatic retries of a single-part payment
+          Stale        \* restarts from a snapshot the monitors have overtaken
 
 VARIABLES dst, dparts, dn, evq, ticks, saved, dirty, net, nextId, decided, paid,
           nDup, nRestart, nSend, obs, hist, quiet, nops,
+          rleft,     \* [p -> automatic retries left]  (the retry strategy is not persisted: 0 after a restart)
+          dch,       \* channels A-B_k whose monitor was updated since the last manager snapshot
+          closed,    \* channels A-B_k closed by a stale restart
+          confirmed, \* ... whose commitment transaction has confirmed
+          sentSince, \* the user handled a PaymentSent since the last snapshot
           feat   \* features the behaviour has shown so far (part of the state, so that a behaviour with a
                  \* repeated event / duplicate delivery / refused send is printed even if it ends in a
                  \* state that a plainer behaviour reaches too)
 
-dvars == <<dst, dparts, dn, evq, ticks, saved, dirty, net, nextId, decided, paid, nDup, nRestart, nSend>>
+dvars == <<dst, dparts, dn, evq, ticks, saved, dirty, net, nextId, decided, paid, nDup, nRestart, nSend, rleft, dch, closed, confirmed, sentSince>>
+xvars == <<rleft, dch, closed, confirmed, sentSince>>
 mvars == <<svars, dvars, obs, hist, quiet, nops, feat>>
 
 P == 1..NP
@@ -47,6 +65,7 @@ MCInit ==
   /\ nextId = [c \in 1..(2 * K) |-> 0]
   /\ decided = [p \in P |-> "none"] /\ paid = 0
   /\ nDup = 0 /\ nRestart = 0 /\ nSend = [p \in P |-> 0]
+  /\ rleft = [p \in P |-> 0] /\ dch = {} /\ closed = {} /\ confirmed = {} /\ sentSince = FALSE
   /\ obs = <<[t |-> "open"]>> /\ hist = <<>> /\ quiet = FALSE /\ nops = 0 /\ feat = {}
 
 H(op) == hist' = Append(hist, op) /\ nops' = nops + 1
@@ -59,8 +78,8 @@ MObs ==
   /\ obs # <<>>
   /\ LET o == Head(obs) IN
      CASE o.t = "open" -> SOpen(0..D, [n \in 0..D |-> Init0])
-       [] o.t = "send" -> SSend(0, o.p, o.p, o.n * Amt, o.n, TRUE, o.res)
-       [] o.t = "add" -> SAdd(o.node, o.chan, o.id, o.hash)
+       [] o.t = "send" -> SSend(0, o.p, o.p, o.n * Amt, o.n, o.fixed, o.res)
+       [] o.t = "add" -> SAdd(o.node, o.chan, o.id, o.hash, Amt)
        [] o.t = "failmsg" -> SFailMsg(o.chan, o.adder, o.id)
        [] o.t = "resolve" -> SResolve(o.chan, 0, o.id, o.how)
        [] o.t = "claimcall" -> SClaimCall(o.hash)
@@ -69,7 +88,10 @@ MObs ==
        [] o.t = "evpathfailed" -> SEvPathFailed(0, o.p, o.p, o.blamed, FALSE, o.path)
        [] o.t = "evother" -> UNCHANGED svars
        [] o.t = "save" -> SSave(0)
-       [] o.t = "restart" -> SRestart(0)
+       [] o.t = "restart" -> SRestart(0, o.stale)
+       [] o.t = "chaincommit" -> SChainCommit(o.chan, o.outs)
+       [] o.t = "chainhtlc" -> SChainHtlc(o.chan, o.hash, o.preimage)
+       [] o.t = "quietchain" -> SQuietChainOK /\ UNCHANGED svars
        [] o.t = "recent" -> SRecentAfterRestart(0, o.listed)
        [] o.t = "quiet" -> SQuietOK([n \in 0..D |-> IF n = 0 THEN Init0 - paid ELSE Init0], IF o.idle THEN {0} ELSE {}) /\ UNCHANGED svars
   /\ obs' = Tail(obs)
@@ -82,8 +104,9 @@ MObs ==
 Emit(seq) == obs' = seq /\ UNCHANGED svars
 
 \* ---------------------------------------------------------------- the user
+Retries(n) == IF n = 1 THEN MaxRetry ELSE 0
 MSend(p, n) ==
-  /\ Idle /\ nSend[p] < MaxSend /\ n \in 1..K
+  /\ Idle /\ nSend[p] < MaxSend /\ n \in 1..K /\ closed = {}
   /\ nSend' = [nSend EXCEPT ![p] = @ + 1]
   /\ IF dst[p] \in {"none", "gone"}
      THEN /\ dst' = [dst EXCEPT ![p] = "retry"]
@@ -95,13 +118,14 @@ MSend(p, n) ==
                                           THEN [loc |-> "out", id |-> nextId[x[2]], id2 |-> 0, origin |-> 0]
                                           ELSE IF x[1] = p THEN [net[x] EXCEPT !.loc = "no"] ELSE net[x]]
           /\ nextId' = [c \in DOMAIN nextId |-> IF c <= n THEN nextId[c] + 1 ELSE nextId[c]]
-          /\ dirty' = TRUE
-          /\ Emit(<<[t |-> "send", p |-> p, n |-> n, res |-> "ok"]>>
+          /\ dirty' = TRUE /\ dch' = dch \cup (1..n)
+          /\ rleft' = [rleft EXCEPT ![p] = Retries(n)]
+          /\ Emit(<<[t |-> "send", p |-> p, n |-> n, fixed |-> Retries(n) = 0, res |-> "ok"]>>
                   \o [k \in 1..n |-> [t |-> "add", node |-> 0, chan |-> k, id |-> nextId[k], hash |-> p]])
-          /\ UNCHANGED <<evq, saved, paid, nDup, nRestart>>
-     ELSE /\ Emit(<<[t |-> "send", p |-> p, n |-> n, res |-> "dup"]>>)
-          /\ UNCHANGED <<dst, dparts, dn, evq, ticks, saved, dirty, net, nextId, decided, paid, nDup, nRestart>>
-  /\ H([op |-> "send", p |-> p, n |-> n]) /\ quiet' = FALSE /\ F(IF dst[p] \in {"none", "gone"} THEN {} ELSE {"send-refused"})
+          /\ UNCHANGED <<evq, saved, paid, nDup, nRestart, closed, confirmed, sentSince>>
+     ELSE /\ Emit(<<[t |-> "send", p |-> p, n |-> n, fixed |-> Retries(n) = 0, res |-> "dup"]>>)
+          /\ UNCHANGED <<dst, dparts, dn, evq, ticks, saved, dirty, net, nextId, decided, paid, nDup, nRestart, xvars>>
+  /\ H([op |-> "send", p |-> p, n |-> n, retries |-> Retries(n)]) /\ quiet' = FALSE /\ F(IF dst[p] \in {"none", "gone"} THEN {} ELSE {"send-refused"})
 
 \* the terminal events: abandon_payment / fail_htlc push PaymentFailed once no part remains
 MAbandon(p) ==
@@ -109,7 +133,7 @@ MAbandon(p) ==
   /\ IF dparts[p] = {}
      THEN dst' = [dst EXCEPT ![p] = "gone"] /\ evq' = Append(evq, [k |-> "failed", p |-> p])
      ELSE dst' = [dst EXCEPT ![p] = "aband"] /\ UNCHANGED evq
-  /\ UNCHANGED <<svars, obs, dparts, dn, ticks, saved, dirty, net, nextId, decided, paid, nDup, nRestart, nSend>>
+  /\ UNCHANGED <<svars, obs, dparts, dn, ticks, saved, dirty, net, nextId, decided, paid, nDup, nRestart, nSend, xvars>>
   /\ H([op |-> "abandon", p |-> p]) /\ quiet' = FALSE /\ F(IF dparts[p] # {} THEN {"abandon-in-flight"} ELSE {})
 
 MHandle ==
@@ -120,65 +144,67 @@ MHandle ==
               [] e.k = "pathfailed" -> [t |-> "evpathfailed", p |-> e.p, blamed |-> e.blamed, path |-> e.path]
               [] OTHER -> [t |-> "evother"]>>)
   /\ evq' = Tail(evq)
-  /\ UNCHANGED <<dst, dparts, dn, ticks, saved, dirty, net, nextId, decided, paid, nDup, nRestart, nSend>>
+  /\ sentSince' = (sentSince \/ Head(evq).k = "sent")
+  /\ UNCHANGED <<dst, dparts, dn, ticks, saved, dirty, net, nextId, decided, paid, nDup, nRestart, nSend, rleft, dch, closed, confirmed>>
   /\ H([op |-> "handle"]) /\ quiet' = FALSE /\ F({})
 
 \* remove_stale_payments
 InQueue(p) == \E i \in 1..Len(evq) : evq[i].p = p /\ evq[i].k \in {"sent", "pathok", "pathfailed"}
 MTick ==
   /\ Idle /\ \E p \in P : dst[p] = "ful" /\ dparts[p] = {}
-  /\ LET stale(p) == dst[p] = "ful" /\ dparts[p] = {} /\ ~InQueue(p) IN
-     /\ ticks' = [p \in P |-> IF stale(p) THEN ticks[p] + 1 ELSE IF dst[p] = "ful" THEN 0 ELSE ticks[p]]
-     /\ dst' = [p \in P |-> IF stale(p) /\ ticks[p] + 1 > Idem THEN "gone" ELSE dst[p]]
-  /\ UNCHANGED <<svars, obs, dparts, dn, evq, saved, dirty, net, nextId, decided, paid, nDup, nRestart, nSend>>
+  /\ LET old(p) == dst[p] = "ful" /\ dparts[p] = {} /\ ~InQueue(p) IN
+     /\ ticks' = [p \in P |-> IF old(p) THEN ticks[p] + 1 ELSE IF dst[p] = "ful" THEN 0 ELSE ticks[p]]
+     /\ dst' = [p \in P |-> IF old(p) /\ ticks[p] + 1 > Idem THEN "gone" ELSE dst[p]]
+  /\ UNCHANGED <<svars, obs, dparts, dn, evq, saved, dirty, net, nextId, decided, paid, nDup, nRestart, nSend, xvars>>
   /\ H([op |-> "tick"]) /\ quiet' = FALSE /\ F({})
 
 MSave ==
-  /\ Idle /\ nRestart < MaxRestart
+  /\ Idle /\ nRestart < MaxRestart /\ closed = {}
   /\ saved' = [dst |-> dst, dparts |-> dparts, dn |-> dn, evq |-> evq, ticks |-> ticks]
-  /\ dirty' = FALSE
+  /\ dirty' = FALSE /\ dch' = {} /\ sentSince' = FALSE
   /\ Emit(<<[t |-> "save"]>>)
-  /\ UNCHANGED <<dst, dparts, dn, evq, ticks, net, nextId, decided, paid, nDup, nRestart, nSend>>
+  /\ UNCHANGED <<dst, dparts, dn, evq, ticks, net, nextId, decided, paid, nDup, nRestart, nSend, rleft, closed, confirmed>>
   /\ H([op |-> "save"]) /\ quiet' = FALSE /\ F({})
 
 \* restart from a snapshot the monitors have not moved past
 MRestart ==
-  /\ Idle /\ DOMAIN saved # {} /\ ~dirty /\ nRestart < MaxRestart
+  /\ Idle /\ DOMAIN saved # {} /\ ~dirty /\ nRestart < MaxRestart /\ closed = {}
   /\ dst' = saved.dst /\ dparts' = saved.dparts /\ dn' = saved.dn /\ evq' = saved.evq /\ ticks' = saved.ticks
   /\ net' = [x \in DOMAIN net |-> IF net[x].loc = "dlvFul" THEN [net[x] EXCEPT !.loc = "retFul"]
                                   ELSE IF net[x].loc = "dlvFail" THEN [net[x] EXCEPT !.loc = "retFail"] ELSE net[x]]
   /\ nRestart' = nRestart + 1
-  /\ Emit(<<[t |-> "restart"], [t |-> "recent", listed |-> {p \in P : saved.dst[p] \notin {"none", "gone"}}]>>)
-  /\ UNCHANGED <<saved, dirty, nextId, decided, paid, nDup, nSend>>
+  /\ Emit(<<[t |-> "restart", stale |-> FALSE], [t |-> "recent", listed |-> {p \in P : saved.dst[p] \notin {"none", "gone"}}]>>)
+  /\ rleft' = [p \in P |-> 0]
+  /\ UNCHANGED <<saved, dirty, nextId, decided, paid, nDup, nSend, dch, closed, confirmed, sentSince>>
   /\ H([op |-> "restart"]) /\ quiet' = FALSE /\ F(IF saved.evq # <<>> THEN {"restart-with-queued-events"} ELSE {})
 
 \* ---------------------------------------------------------------- the network and the recipient
 MArrive(p, k) ==
-  /\ Idle /\ net[<<p, k>>].loc = "out"
+  /\ Idle /\ net[<<p, k>>].loc = "out" /\ k \notin closed
   /\ net' = [net EXCEPT ![<<p, k>>].loc = "held", ![<<p, k>>].id2 = nextId[K + k]]
   /\ nextId' = [nextId EXCEPT ![K + k] = @ + 1]
   /\ Emit(<<[t |-> "add", node |-> k, chan |-> K + k, id |-> nextId[K + k], hash |-> p]>>)
-  /\ dirty' = TRUE      \* the commitment exchange that carries the HTLC to B_k updates A's monitor
-  /\ UNCHANGED <<dst, dparts, dn, evq, ticks, saved, decided, paid, nDup, nRestart, nSend>>
+  /\ dirty' = TRUE /\ dch' = dch \cup {k}     \* the commitment exchange that carries the HTLC to B_k updates A's monitor
+  /\ UNCHANGED <<dst, dparts, dn, evq, ticks, saved, decided, paid, nDup, nRestart, nSend, rleft, closed, confirmed, sentSince>>
   /\ H([op |-> "arrive", p |-> p, k |-> k]) /\ quiet' = FALSE /\ F({})
 
 \* B_k cannot forward (its channel to D is unusable): it fails the part back
 MFailHop(p, k) ==
-  /\ Idle /\ net[<<p, k>>].loc = "out"
+  /\ Idle /\ net[<<p, k>>].loc = "out" /\ k \notin closed
   /\ net' = [net EXCEPT ![<<p, k>>].loc = "retFail", ![<<p, k>>].origin = 1]
   /\ Emit(<<[t |-> "failmsg", chan |-> k, adder |-> 0, id |-> net[<<p, k>>].id]>>)
-  /\ dirty' = TRUE
-  /\ UNCHANGED <<dst, dparts, dn, evq, ticks, saved, nextId, decided, paid, nDup, nRestart, nSend>>
+  /\ dirty' = TRUE /\ dch' = dch \cup {k}
+  /\ UNCHANGED <<dst, dparts, dn, evq, ticks, saved, nextId, decided, paid, nDup, nRestart, nSend, rleft, closed, confirmed, sentSince>>
   /\ H([op |-> "failhop", p |-> p, k |-> k]) /\ quiet' = FALSE /\ F({})
 
 \* D claims: only a complete set of parts (all-or-nothing recipient)
 MClaim(p) ==
   /\ Idle /\ decided[p] = "none" /\ dn[p] > 0
-  /\ \A k \in 1..dn[p] : net[<<p, k>>].loc = "held"
+  /\ Cardinality({k \in 1..K : net[<<p, k>>].loc = "held"}) = dn[p]
   /\ decided' = [decided EXCEPT ![p] = "claim"]
   /\ net' = [x \in DOMAIN net |-> IF x[1] = p /\ net[x].loc = "held" THEN [net[x] EXCEPT !.loc = "retFul"] ELSE net[x]]
   /\ Emit(<<[t |-> "claimcall", hash |-> p]>>)
-  /\ UNCHANGED <<dst, dparts, dn, evq, ticks, saved, dirty, nextId, paid, nDup, nRestart, nSend>>
+  /\ UNCHANGED <<dst, dparts, dn, evq, ticks, saved, dirty, nextId, paid, nDup, nRestart, nSend, xvars>>
   /\ H([op |-> "claim", p |-> p]) /\ quiet' = FALSE /\ F({})
 
 \* D fails back whatever it holds of the payment (fail_htlc_backwards / MPP timeout)
@@ -192,7 +218,7 @@ MFailR(p) ==
                    LET k == sq[(i + 1) \div 2] IN
                    IF i % 2 = 1 THEN [t |-> "failmsg", chan |-> K + k, adder |-> k, id |-> net[<<p, k>>].id2]
                                 ELSE [t |-> "failmsg", chan |-> k, adder |-> 0, id |-> net[<<p, k>>].id]])
-  /\ UNCHANGED <<dst, dparts, dn, evq, ticks, saved, dirty, nextId, decided, paid, nDup, nRestart, nSend>>
+  /\ UNCHANGED <<dst, dparts, dn, evq, ticks, saved, dirty, nextId, decided, paid, nDup, nRestart, nSend, xvars>>
   /\ H([op |-> "failr", p |-> p]) /\ quiet' = FALSE /\ F({})
 
 \* claim_htlc: the first fulfil of a payment that is not yet fulfilled queues PaymentSent
@@ -205,7 +231,7 @@ ClaimHtlc(p) ==
 \* the resolution of part k is handed to A (update_fulfill_htlc acts at once, update_fail_htlc
 \* only when irrevocably committed)
 MDeliver(p, k) ==
-  /\ Idle /\ net[<<p, k>>].loc \in {"retFul", "retFail"}
+  /\ Idle /\ net[<<p, k>>].loc \in {"retFul", "retFail"} /\ k \notin closed
   /\ IF net[<<p, k>>].loc = "retFul"
      THEN /\ net' = [net EXCEPT ![<<p, k>>].loc = "dlvFul"]
           /\ ClaimHtlc(p)
@@ -213,51 +239,174 @@ MDeliver(p, k) ==
      ELSE /\ net' = [net EXCEPT ![<<p, k>>].loc = "dlvFail"]
           /\ UNCHANGED <<dst, evq>>
           /\ Emit(<<[t |-> "resolve", chan |-> k, id |-> net[<<p, k>>].id, how |-> "fail"]>>)
-  /\ UNCHANGED <<dparts, dn, ticks, saved, dirty, nextId, decided, paid, nDup, nRestart, nSend>>
+  /\ UNCHANGED <<dparts, dn, ticks, saved, dirty, nextId, decided, paid, nDup, nRestart, nSend, xvars>>
   /\ H([op |-> "deliver", p |-> p, k |-> k]) /\ quiet' = FALSE /\ F({})
 
 \* the link A - B_k drops before the resolution is committed: B_k hands it over again
 MDup(p, k) ==
-  /\ Idle /\ nDup < MaxDup /\ net[<<p, k>>].loc \in {"dlvFul", "dlvFail"}
+  /\ Idle /\ nDup < MaxDup /\ net[<<p, k>>].loc \in {"dlvFul", "dlvFail"} /\ k \notin closed
   /\ nDup' = nDup + 1
   /\ IF net[<<p, k>>].loc = "dlvFul"
      THEN ClaimHtlc(p) /\ Emit(<<[t |-> "resolve", chan |-> k, id |-> net[<<p, k>>].id, how |-> "ful"]>>)
      ELSE UNCHANGED <<dst, evq>> /\ Emit(<<[t |-> "resolve", chan |-> k, id |-> net[<<p, k>>].id, how |-> "fail"]>>)
-  /\ UNCHANGED <<dparts, dn, ticks, saved, dirty, net, nextId, decided, paid, nRestart, nSend>>
+  /\ UNCHANGED <<dparts, dn, ticks, saved, dirty, net, nextId, decided, paid, nRestart, nSend, xvars>>
   /\ H([op |-> "dup", p |-> p, k |-> k]) /\ quiet' = FALSE /\ F(IF net[<<p, k>>].loc = "dlvFul" THEN {"dup-fulfil"} ELSE {"dup-fail"})
 
 \* the removal becomes irrevocable: finalize_claims / fail_htlc
 Blamed(k, origin) == IF origin = 1 THEN K + k ELSE 0
 SentQueued(p) == \E i \in 1..Len(evq) : evq[i].p = p /\ evq[i].k = "sent"
+\* the next unused branch (a retry avoids the channel that failed)
+FreeBranch(p) == {j \in 1..K : net[<<p, j>>].loc = "no" /\ j \notin closed}
+MinOf(S) == CHOOSE x \in S : \A y \in S : x <= y
 MCommit(p, k) ==
-  /\ Idle /\ net[<<p, k>>].loc \in {"dlvFul", "dlvFail"}
+  /\ Idle /\ net[<<p, k>>].loc \in {"dlvFul", "dlvFail"} /\ k \notin closed
   \* the monitor update that makes a fulfil irrevocable is held back until the user has handled PaymentSent
   /\ net[<<p, k>>].loc = "dlvFul" => ~SentQueued(p)
-  /\ net' = [net EXCEPT ![<<p, k>>].loc = "done"]
   /\ dirty' = TRUE
   /\ IF net[<<p, k>>].loc = "dlvFul"
      THEN /\ paid' = paid + Amt + Fee
+          /\ net' = [net EXCEPT ![<<p, k>>].loc = "done"]
           /\ IF k \in dparts[p] /\ dst[p] = "ful"
              THEN dparts' = [dparts EXCEPT ![p] = @ \ {k}] /\ evq' = Append(evq, [k |-> "pathok", p |-> p])
              ELSE UNCHANGED <<dparts, evq>>
-          /\ UNCHANGED dst
+          /\ dch' = dch \cup {k}
+          /\ Emit(<<>>)
+          /\ UNCHANGED <<dst, rleft, nextId>>
      ELSE /\ UNCHANGED paid
-          /\ IF k \notin dparts[p] \/ dst[p] \in {"none", "gone"} THEN UNCHANGED <<dparts, evq, dst>>
-             ELSE IF dst[p] = "ful" THEN dparts' = [dparts EXCEPT ![p] = @ \ {k}] /\ UNCHANGED <<evq, dst>>
+          /\ IF k \notin dparts[p] \/ dst[p] \in {"none", "gone"}
+             THEN /\ UNCHANGED <<dparts, evq, dst, rleft, nextId>> /\ Emit(<<>>) /\ dch' = dch \cup {k}
+                  /\ net' = [net EXCEPT ![<<p, k>>].loc = "done"]
+             ELSE IF dst[p] = "ful"
+             THEN /\ dparts' = [dparts EXCEPT ![p] = @ \ {k}] /\ UNCHANGED <<evq, dst, rleft, nextId>> /\ Emit(<<>>) /\ dch' = dch \cup {k}
+                  /\ net' = [net EXCEPT ![<<p, k>>].loc = "done"]
              ELSE LET left == dparts[p] \ {k}
                       pf == [k |-> "pathfailed", p |-> p, blamed |-> Blamed(k, net[<<p, k>>].origin), path |-> Path(k)]
-                  IN /\ dparts' = [dparts EXCEPT ![p] = left]
-                     /\ IF left = {}
-                        THEN dst' = [dst EXCEPT ![p] = "gone"] /\ evq' = evq \o <<pf, [k |-> "failed", p |-> p]>>
-                        ELSE dst' = [dst EXCEPT ![p] = "aband"] /\ evq' = Append(evq, pf)
-  /\ UNCHANGED <<svars, obs, dn, ticks, saved, nextId, decided, nDup, nRestart, nSend>>
-  /\ H([op |-> "commit", p |-> p, k |-> k]) /\ quiet' = FALSE /\ F({})
+                  IN IF dst[p] = "retry" /\ rleft[p] > 0
+                     THEN \* automatic retry (check_retry_payments in process_pending_htlc_forwards): a new HTLC
+                          \* over the next unused branch, or PaymentFailed if there is no route left
+                          /\ rleft' = [rleft EXCEPT ![p] = @ - 1]
+                          /\ IF FreeBranch(p) = {}
+                             THEN /\ dparts' = [dparts EXCEPT ![p] = left]
+                                  /\ IF left = {} THEN dst' = [dst EXCEPT ![p] = "gone"] /\ evq' = evq \o <<pf, [k |-> "failed", p |-> p]>>
+                                                  ELSE dst' = [dst EXCEPT ![p] = "aband"] /\ evq' = Append(evq, pf)
+                                  /\ net' = [net EXCEPT ![<<p, k>>].loc = "done"]
+                                  /\ Emit(<<>>) /\ dch' = dch \cup {k} /\ UNCHANGED nextId
+                             ELSE LET j == MinOf(FreeBranch(p)) IN
+                                  /\ dparts' = [dparts EXCEPT ![p] = left \cup {j}]
+                                  /\ evq' = Append(evq, pf) /\ UNCHANGED dst
+                                  /\ net' = [net EXCEPT ![<<p, k>>].loc = "done",
+                                                         ![<<p, j>>] = [loc |-> "out", id |-> nextId[j], id2 |-> 0, origin |-> 0]]
+                                  /\ nextId' = [nextId EXCEPT ![j] = @ + 1]
+                                  /\ dch' = dch \cup {k, j}
+                                  /\ Emit(<<[t |-> "add", node |-> 0, chan |-> j, id |-> nextId[j], hash |-> p]>>)
+                     ELSE /\ dparts' = [dparts EXCEPT ![p] = left]
+                          /\ IF left = {}
+                             THEN dst' = [dst EXCEPT ![p] = "gone"] /\ evq' = evq \o <<pf, [k |-> "failed", p |-> p]>>
+                             ELSE dst' = [dst EXCEPT ![p] = "aband"] /\ evq' = Append(evq, pf)
+                          /\ net' = [net EXCEPT ![<<p, k>>].loc = "done"]
+                          /\ Emit(<<>>) /\ dch' = dch \cup {k} /\ UNCHANGED <<rleft, nextId>>
+  /\ UNCHANGED <<dn, ticks, saved, decided, nDup, nRestart, nSend, closed, confirmed, sentSince>>
+  /\ H([op |-> "commit", p |-> p, k |-> k]) /\ quiet' = FALSE
+  /\ F(IF net[<<p, k>>].loc = "dlvFail" /\ k \in dparts[p] /\ dst[p] = "retry" /\ rleft[p] > 0 THEN {"retry"} ELSE {})
+
+\* ---------------------------------------------------------------- stale restart and the chain
+InMon == {"out", "held", "retFul", "retFail", "dlvFul", "dlvFail"}
+\* fail_htlc on a manager that cannot retry any more: the sequence of events and the resulting payment state
+RECURSIVE FailParts(_, _, _, _)
+FailParts(p, ks, st, parts) ==      \* -> [dst, parts, evs]
+  IF ks = {} THEN [dst |-> st, parts |-> parts, evs |-> <<>>]
+  ELSE LET k == MinOf(ks)
+           left == parts \ {k}
+           pf == [k |-> "pathfailed", p |-> p, blamed |-> 0, path |-> Path(k)]
+       IN IF st \in {"none", "gone"} \/ k \notin parts THEN FailParts(p, ks \ {k}, st, parts)
+          ELSE IF st = "ful" THEN FailParts(p, ks \ {k}, st, left)
+          ELSE IF left = {}
+               THEN [dst |-> "gone", parts |-> {}, evs |-> <<pf, [k |-> "failed", p |-> p]>>]
+               ELSE LET r == FailParts(p, ks \ {k}, "aband", left) IN [r EXCEPT !.evs = <<pf>> \o @]
+
+\* ChannelManager::read with monitors that are ahead of the manager
+Reload(p, cl) ==
+  LET sd == saved.dst[p]
+      sp == saved.dparts[p]
+      mon == {k \in cl : net[<<p, k>>].loc \in InMon}
+      \* insert_from_monitor_on_startup
+      st1 == IF sd \in {"none", "gone"} THEN (IF mon = {} THEN sd ELSE "retry") ELSE sd
+      p1 == IF sd \in {"none", "gone"} THEN mon ELSE IF sd = "retry" THEN sp \cup mon ELSE sp
+      \* HTLCs the snapshot holds on a closed channel which the monitor no longer has
+      missing == {k \in sp \cap cl : k \notin mon}
+  IN FailParts(p, missing, st1, p1)
+
+MRestartStale ==
+  /\ Stale /\ Idle /\ DOMAIN saved # {} /\ dch # {} /\ nRestart < MaxRestart /\ closed = {}
+  \* user behaviours of the recorded findings are left out: payment id used twice, PaymentSent handled since the snapshot
+  /\ \A p \in Pids : pay[p].gen = 1
+  /\ ~sentSince
+  /\ LET cl == dch
+         r == [p \in P |-> Reload(p, cl)]
+         RECURSIVE Evs(_)
+         Evs(ps) == IF ps = {} THEN <<>> ELSE LET q == MinOf(ps) IN r[q].evs \o Evs(ps \ {q})
+     IN /\ closed' = cl
+        /\ dst' = [p \in P |-> r[p].dst]
+        /\ dparts' = [p \in P |-> r[p].parts]
+        /\ evq' = saved.evq \o Evs(P)
+        /\ Emit(<<[t |-> "restart", stale |-> TRUE], [t |-> "recent", listed |-> {p \in P : r[p].dst \notin {"none", "gone"}}]>>)
+  /\ dn' = saved.dn /\ ticks' = saved.ticks
+  \* a resolution that was handed over on a closed channel but not committed is settled on chain
+  /\ net' = [x \in DOMAIN net |-> IF net[x].loc = "dlvFul" THEN [net[x] EXCEPT !.loc = "retFul"]
+                                  ELSE IF net[x].loc = "dlvFail" THEN [net[x] EXCEPT !.loc = "retFail"] ELSE net[x]]
+  /\ nRestart' = nRestart + 1 /\ rleft' = [p \in P |-> 0]
+  /\ UNCHANGED <<saved, dirty, nextId, decided, paid, nDup, nSend, dch, confirmed, sentSince>>
+  /\ H([op |-> "restart_stale"]) /\ quiet' = FALSE
+  /\ F({"stale-restart"} \cup (IF \E p \in P : saved.dst[p] = "retry" /\ \E k \in dch : k \notin saved.dparts[p] /\ net[<<p, k>>].loc \in InMon
+                                THEN {"stale-readd"} ELSE {})
+                         \cup (IF \E p \in P : saved.dst[p] \in {"none", "gone"} /\ \E k \in dch : net[<<p, k>>].loc \in InMon
+                                THEN {"stale-recreate"} ELSE {}))
+
+\* the commitment transaction of a closed channel confirms (the miner takes everything at once)
+MConfirm(k) ==
+  /\ Idle /\ k \in closed /\ k \notin confirmed
+  /\ confirmed' = confirmed \cup {k}
+  /\ Emit(<<[t |-> "chaincommit", chan |-> k, outs |-> IF \E p \in P : net[<<p, k>>].loc \in InMon THEN {Amt \div 1000} ELSE {}]>>)
+  /\ UNCHANGED <<dst, dparts, dn, evq, ticks, saved, dirty, net, nextId, decided, paid, nDup, nRestart, nSend, rleft, dch, closed, sentSince>>
+  /\ UNCHANGED <<hist, nops>> /\ quiet' = FALSE /\ F({})
+
+\* B_k knows the preimage and claims the HTLC output: the payer learns the preimage from the chain
+MChainClaim(p, k) ==
+  /\ Idle /\ k \in confirmed /\ net[<<p, k>>].loc = "retFul"
+  /\ net' = [net EXCEPT ![<<p, k>>].loc = "done"]
+  /\ LET first == dst[p] \in {"retry", "aband"}
+         sent == IF first THEN <<[k |-> "sent", p |-> p, fee |-> Fee * Cardinality(dparts[p])]>> ELSE <<>>
+         st == IF first THEN "ful" ELSE dst[p]
+     IN /\ dst' = [dst EXCEPT ![p] = st]
+        /\ IF k \in dparts[p] /\ st = "ful"
+           THEN dparts' = [dparts EXCEPT ![p] = @ \ {k}] /\ evq' = evq \o sent \o <<[k |-> "pathok", p |-> p]>>
+           ELSE UNCHANGED dparts /\ evq' = evq \o sent
+  /\ Emit(<<[t |-> "chainhtlc", chan |-> k, hash |-> p, preimage |-> TRUE]>>)
+  /\ UNCHANGED <<dn, ticks, saved, dirty, nextId, decided, paid, nDup, nRestart, nSend, xvars>>
+  /\ UNCHANGED <<hist, nops>> /\ quiet' = FALSE /\ F({"chain-claim"})
+
+\* nobody can claim the HTLC output: it times out (the recipient has not claimed and no longer will)
+MChainTimeout(p, k) ==
+  /\ Idle /\ k \in confirmed /\ net[<<p, k>>].loc \in {"out", "held", "retFail"}
+  /\ net[<<p, k>>].loc = "held" => decided[p] # "claim"
+  /\ net' = [net EXCEPT ![<<p, k>>].loc = "done"]
+  /\ decided' = [decided EXCEPT ![p] = IF @ = "none" THEN "timeout" ELSE @]
+  /\ LET r == FailParts(p, {k}, dst[p], dparts[p]) IN
+     dst' = [dst EXCEPT ![p] = r.dst] /\ dparts' = [dparts EXCEPT ![p] = r.parts] /\ evq' = evq \o r.evs
+  /\ Emit(<<[t |-> "chainhtlc", chan |-> k, hash |-> p, preimage |-> FALSE]>>)
+  /\ UNCHANGED <<dn, ticks, saved, dirty, nextId, paid, nDup, nRestart, nSend, xvars>>
+  /\ UNCHANGED <<hist, nops>> /\ quiet' = FALSE /\ F({"chain-timeout"})
 
 \* every link up and empty, every event handled
-Moving == \E x \in DOMAIN net : net[x].loc \in {"out", "retFul", "retFail", "dlvFul", "dlvFail"}
+\* (once a channel was closed the chain settles: nothing stays behind on a closed channel, and what the
+\* recipient still holds is failed back when it expires)
+Moving == \/ \E x \in DOMAIN net : net[x].loc \in {"out", "retFul", "retFail", "dlvFul", "dlvFail"}
+          \/ closed # {} /\ \E x \in DOMAIN net : net[x].loc = "held"
+          \/ closed # confirmed
 MQuiet ==
   /\ Idle /\ evq = <<>> /\ ~Moving /\ ~quiet /\ hist # <<>>
-  /\ Emit(<<[t |-> "quiet", idle |-> \A x \in DOMAIN net : net[x].loc \in {"no", "done"}]>>)
+  /\ IF closed = {} THEN Emit(<<[t |-> "quiet", idle |-> \A x \in DOMAIN net : net[x].loc \in {"no", "done"}]>>)
+                    ELSE Emit(<<[t |-> "quietchain"]>>)
   /\ quiet' = TRUE
   /\ UNCHANGED <<dvars, hist, nops, feat>>
 
@@ -267,8 +416,10 @@ MCNext ==
   \/ MObs
   \/ \E p \in P, n \in 1..K : MSend(p, n)
   \/ \E p \in P : MAbandon(p) \/ MClaim(p) \/ MFailR(p)
-  \/ MHandle \/ MTick \/ MSave \/ MRestart
+  \/ MHandle \/ MTick \/ MSave \/ MRestart \/ MRestartStale
   \/ \E p \in P, k \in 1..K : MArrive(p, k) \/ MFailHop(p, k) \/ MDeliver(p, k) \/ MDup(p, k) \/ MCommit(p, k)
+  \/ \E k \in 1..K : MConfirm(k)
+  \/ \E p \in P, k \in 1..K : MChainClaim(p, k) \/ MChainTimeout(p, k)
   \/ MQuiet \/ MDone
 
 MCSpec == MCInit /\ [][MCNext]_mvars
